@@ -139,7 +139,7 @@ def main(ctx: Ctx) -> int:
 
     rng = random.Random(ctx.seed)
     nets = []   # (origin, Network, per-reaction (fmt, code))
-    n = 6 if ctx.quick else 80
+    n = 6 if ctx.quick else 500
     for fmt in ("kida", "umist", "leeds", "uclchem", "krome", "naunet"):
         for k in range(n):
             lines, codes = [], []
